@@ -56,9 +56,10 @@ def kappa_float(d: float) -> Fraction:
     f = Fraction(d)
     up = Fraction(math.nextafter(d, math.inf))
     dn = Fraction(math.nextafter(d, -math.inf))
-    # shrink slightly so ties (which may round either way) are excluded
-    lo = f - (f - dn) * Fraction(499, 1000)
-    hi = f + (up - f) * Fraction(499, 1000)
+    # window of +-4.5 ulp: compilers and sympy fold constant sub-expressions in
+    # double arithmetic, which moves a "nice" constant by an ulp or two
+    lo = f - (f - dn) * Fraction(9, 2)
+    hi = f + (up - f) * Fraction(9, 2)
     return _simplest_between(lo, hi)
 
 
